@@ -100,7 +100,12 @@ func (c *call) run(ctx context.Context, st state.State) {
 	case opUWCForeign:
 		c.ret, c.err = st.UpdateWithConflicts(ctx, ptr(), addTag, state.WithUpdateOwner(ownerBad))
 	case opUWCAnyPhase:
-		c.ret, c.err = st.UpdateWithConflicts(ctx, ptr(), addTag, state.WithUpdateOwner(ownerOK), state.WithExpectedPhaseAny())
+		// (through the typed wrapper of pkg/safe: same contract)
+		var typed *conformance.IntResource
+		typed, c.err = safe.StateUpdateWithConflicts(ctx, st, ptr(), func(r *conformance.IntResource) error { return addTag(r) }, state.WithUpdateOwner(ownerOK), state.WithExpectedPhaseAny())
+		if typed != nil {
+			c.ret = typed
+		}
 	case opUWCTD:
 		c.ret, c.err = st.UpdateWithConflicts(ctx, ptr(), addTag, state.WithUpdateOwner(ownerOK), state.WithExpectedPhase(resource.PhaseTearingDown))
 	case opUWCNoop:
